@@ -40,8 +40,12 @@ class AssemblyManager(object):
         ]
 
         try:
+            seen = set()
             for elem in self.elements:
-                self._deref_citations(elem.record)
+                # a record listed twice is dereferenced once
+                if id(elem.record) not in seen:
+                    seen.add(id(elem.record))
+                    self._deref_citations(elem.record)
             assembly = self._generate_assembly(modmap)
             self._annotate_assembly(assembly)
             self._ref_citations(assembly)
